@@ -418,6 +418,54 @@ theorem conjunction_post (a1 d1 a2 d2 : List ℚ) (n0 dd : ℚ)
             exact ⟨_, _, _, ia, id, hia, hid, (root_post_default _ _ ia r 1000 hia hr).1,
               (root_post_default _ _ ia r 1000 hia hr).2, hv⟩
 
+/-- The time returned by `planetary_conjunction` lies in the table of times `-h, …, n-1-h` (`n` entries used: all
+    of them, or all but the last when their number is even; `h = n / 2`). -/
+theorem conjunction_time_window (a1 d1 a2 d2 : List ℚ) (n0 dd : ℚ)
+    (h : planetary_conjunction a1 d1 a2 d2 = .ok (n0, dd)) :
+    ∃ n : ℕ, (n = a1.length ∨ n = a1.length - 1) ∧ 3 ≤ n + 1 ∧
+      (((0 : ℤ) - ((n / 2 : ℕ) : ℤ) : ℤ) : ℚ) ≤ n0 ∧ n0 ≤ ((((n - 1 : ℕ) : ℤ) - ((n / 2 : ℕ) : ℤ) : ℤ) : ℚ) := by
+  have key : ∀ (b1 b2 : List ℚ) (ia : Interp) (r : ℚ), b1.length = b2.length → 2 ≤ b1.length →
+      GenQ.Interpolation.set TOL [.list (times b1.length ((b1.length / 2 : ℕ) : ℤ)),
+        .list (List.zipWith (fun a b => a - b) b1 b2)] = .ok ia →
+      root ia 0 0 1000 = .ok r →
+      (((0 : ℤ) - ((b1.length / 2 : ℕ) : ℤ) : ℤ) : ℚ) ≤ r ∧
+        r ≤ ((((b1.length - 1 : ℕ) : ℤ) - ((b1.length / 2 : ℕ) : ℤ) : ℤ) : ℚ) := by
+    intro b1 b2 ia r hl h2 hia hr
+    have hx : ia.x = times b1.length ((b1.length / 2 : ℕ) : ℤ) :=
+      set_sorted_keeps_x TOL_pos TOL_le_one (times_sorted _ _) (by simp [times, hl]) hia
+    obtain ⟨⟨r1, r2⟩, _⟩ := root_post_default _ _ ia r 1000 hia hr
+    have hlen : ia.x.length = b1.length := by rw [hx]; simp [times]
+    have f : xfirst ia = (((0 : ℤ) - ((b1.length / 2 : ℕ) : ℤ) : ℤ) : ℚ) := by
+      unfold xfirst; rw [hx, nodes_times _ (by omega)]; norm_num
+    have l : xlast ia = ((((b1.length - 1 : ℕ) : ℤ) - ((b1.length / 2 : ℕ) : ℤ) : ℤ) : ℚ) := by
+      unfold xlast; rw [hlen, hx, nodes_times _ (by omega)]
+    rw [f] at r1; rw [l] at r2
+    exact ⟨r1, r2⟩
+  unfold planetary_conjunction at h
+  split_ifs at h with g1 g2 g3
+  all_goals
+    simp only [bind, Except.bind] at h
+    split at h
+    · cases h
+    · rename_i ia hia
+      split at h
+      · cases h
+      · rename_i id hid
+        split at h
+        · cases h
+        · rename_i r hr
+          split at h
+          · cases h
+          · rename_i v hv
+            simp only [pure, Except.pure] at h
+            injection h with h
+            injection h with e1 e2
+            subst e1
+            first
+              | exact ⟨a1.dropLast.length, Or.inr (by simp), by simp; omega,
+                  key a1.dropLast a2.dropLast ia r (by simp; omega) (by simp; omega) hia hr⟩
+              | exact ⟨a1.length, Or.inl rfl, by omega, key a1 a2 ia r (by omega) (by omega) hia hr⟩
+
 /-! ### Non-vacuity: concrete tables satisfy the hypotheses used above -/
 
 example : (GenQ.Interpolation.set TOL [.list [3, 1, 2], .list [9, 1, 4]]).map (fun o => (o.x, o.y, o.table))
